@@ -150,6 +150,7 @@ impl BuiltAdt {
     ///
     /// - **Upgrading**: Adds empty version-specific chunks as needed
     /// - **Downgrading**: Removes chunks not supported in target version
+    /// - **No target version**: Keeps the chunks the tile was parsed with, adds none
     ///
     /// # Arguments
     ///
@@ -180,11 +181,17 @@ impl BuiltAdt {
 
         // Handle version-specific chunks based on target version
         let flight_bounds = if version >= AdtVersion::TBC {
-            // Use existing flight bounds or create defaults for TBC+
-            root.flight_bounds.or(Some(MfboChunk {
-                max_plane: [0; 9],
-                min_plane: [0; 9],
-            }))
+            if target_version.is_some() {
+                // Converting: use existing flight bounds or create defaults for TBC+
+                root.flight_bounds.or(Some(MfboChunk {
+                    max_plane: [0; 9],
+                    min_plane: [0; 9],
+                }))
+            } else {
+                // Keeping the original version: MFBO is optional in TBC+ files, a tile
+                // that had none is re-serialized without one
+                root.flight_bounds
+            }
         } else {
             None // Remove for pre-TBC
         };
